@@ -280,8 +280,74 @@ def h_fail(g0: int, g1: int, d0: int, d1: int, idle: int, which: bool) -> bool:
     return vkopf.verdict(ok)
 
 
+def smt_worker_timeout(cell=None, replay=None):
+    """E4: how long an idle worker waits for the next event of its object -- the assignment of `timeout` in the real
+    `queueing.worker`, translated from its source. For EVERY idle timeout >= 1, clock value and consistency deadline (or none):
+    the wait is at least the idle timeout (> 0: `wait_for(..., timeout <= 0)` never looks at the queue -- a live-lock with a
+    non-empty backlog), it covers the consistency deadline if there is one, and it is one of the two."""
+    import ast as _ast
+    import inspect
+    import textwrap
+    import time
+    import types
+    import z3
+    from vkopf import astsmt
+    tree = _ast.parse(textwrap.dedent(inspect.getsource(queueing.worker)))
+    assigns = [n for n in _ast.walk(tree) if isinstance(n, _ast.Assign) and len(n.targets) == 1 and
+               isinstance(n.targets[0], _ast.Name) and n.targets[0].id == 'timeout']
+    if len(assigns) != 1:
+        return {'status': 'harness_error', 'message': 'queueing.worker no longer has exactly one assignment of `timeout`'}
+
+    def concrete(idle, now, ct):
+        ns = {'settings': types.SimpleNamespace(queueing=types.SimpleNamespace(idle_timeout=idle)),
+              'loop': types.SimpleNamespace(time=lambda: now), 'consistency_time': ct}
+        exec(compile(_ast.Module(body=assigns, type_ignores=[]), '<worker>', 'exec'), ns)
+        return ns['timeout']
+
+    def holds(idle, now, ct, t):
+        return t >= idle and (ct is None or t >= ct - now) and (t == idle or (ct is not None and t == ct - now))
+    if replay is not None:
+        return bool(holds(replay['idle'], replay['now'], replay['ct'], concrete(replay['idle'], replay['now'], replay['ct'])))
+    t0 = time.time()
+    idle, now, ctv = z3.Reals('idle now ct')
+    has = z3.Bool('has_ct')
+    try:
+        env = astsmt.translate_statements(assigns, {'settings.queueing.idle_timeout': idle, 'consistency_time': astsmt.Opt(has, ctv)},
+                                          {'loop.time': lambda tr: now})
+        timeout = env['timeout']
+    except astsmt.Unsupported as e:
+        return {'status': 'harness_error', 'message': f'the worker timeout is no longer translatable: {e}'}
+    for (i_, n_, c_) in ((5, 100, None), (5, 100, 103), (5, 100, 110), (5, 100, 90), (1, 0, 0)):
+        sv = z3.Solver()
+        sv.add(idle == i_, now == n_, has == (c_ is not None), ctv == (c_ or 0))
+        want = concrete(i_, n_, c_)
+        if str(sv.check()) != 'sat' or sv.model().eval(timeout, model_completion=True).as_fraction() != want:
+            return {'status': 'harness_error', 'message': 'encoding of the worker timeout disagrees with Python'}
+    goals = {'at_least_idle': timeout >= idle, 'covers_deadline': z3.Implies(has, timeout >= ctv - now),
+             'one_of_both': z3.Or(timeout == idle, z3.And(has, timeout == ctv - now))}
+    queries = 0
+    for g, term in goals.items():
+        s = z3.Solver()
+        s.set('timeout', 60000)
+        s.add(idle >= 1, now >= 0, z3.Not(term))
+        r = str(s.check())
+        queries += 1
+        if r == 'sat':
+            m = s.model()
+            def val(x):
+                f = m.eval(x, model_completion=True).as_fraction()
+                return int(f) if f.denominator == 1 else float(f)
+            ct_val = val(ctv) if z3.is_true(m.eval(has, model_completion=True)) else None
+            return {'status': 'counterexample', 'paths': queries, 'queries': queries, 'message': f'z3: sat for {g}',
+                    'args': {'replay': {'idle': val(idle), 'now': val(now), 'ct': ct_val, 'goal': g}}}
+        if r != 'unsat':
+            return {'status': 'inconclusive', 'message': f'z3 {r}', 'paths': queries, 'queries': queries}
+    return {'status': 'confirmed', 'paths': queries, 'harness_calls': queries, 'nontrivial_paths': queries, 'queries': queries,
+            'solver_s': round(time.time() - t0, 3), 'tags': {'smt_goal': queries}, 'message': 'z3: all negated goals unsat (reals)'}
+
+
 def obligations():
-    obs = []
+    obs = [Ob('smt_worker_timeout', {}, engine='smt', timeout=300)]
     pats2 = [['a', 'a'], ['a', 'b']]
     pats3 = [['a', 'a', 'a'], ['a', 'a', 'b'], ['a', 'b', 'a'], ['a', 'b', 'b'], ['a', 'b', 'c']]
     pats4 = [['a', 'a', 'a', 'a'], ['a', 'b', 'a', 'b'], ['a', 'a', 'b', 'a'], ['a', 'b', 'b', 'a']]
